@@ -75,16 +75,26 @@ func runC18(c *Ctx) {
 	if nf := c.Func("R18a", pSqlcheck+"/destructive", "", "New"); nf != nil {
 		info := nf.Info()
 		def := false
-		ast.Inspect(nf.Decl.Body, func(m ast.Node) bool {
-			as, ok := m.(*ast.AssignStmt)
-			if !ok || len(as.Lhs) != 1 {
-				return true
+		isTruePtr := func(e ast.Expr) bool {
+			if call, ok := ast.Unparen(e).(*ast.CallExpr); ok && len(call.Args) == 1 {
+				if tv := info.Types[call.Args[0]]; tv.Value != nil && tv.Value.String() == "true" {
+					return true
+				}
 			}
-			if se, ok := as.Lhs[0].(*ast.SelectorExpr); ok && se.Sel.Name == "Error" {
-				if call, ok := as.Rhs[0].(*ast.CallExpr); ok && len(call.Args) == 1 {
-					if tv := info.Types[call.Args[0]]; tv.Value != nil && tv.Value.String() == "true" {
+			return false
+		}
+		ast.Inspect(nf.Decl.Body, func(m ast.Node) bool {
+			switch x := m.(type) {
+			case *ast.AssignStmt:
+				if len(x.Lhs) == 1 && len(x.Rhs) == 1 {
+					if se, ok := x.Lhs[0].(*ast.SelectorExpr); ok && se.Sel.Name == "Error" && isTruePtr(x.Rhs[0]) {
 						def = true
 					}
+				}
+			case *ast.KeyValueExpr:
+				// the default given in the literal that builds the analyzer (Options{Error: sqlx.P(true)})
+				if id, ok := x.Key.(*ast.Ident); ok && id.Name == "Error" && isTruePtr(x.Value) {
+					def = true
 				}
 			}
 			return true
